@@ -110,10 +110,36 @@ func (C14) Gen(t *tape.Tape, tier string) any {
 			sc.Plan.W.MaxRowsPerGroup = int64(max(1, sc.Plan.NRows/3))
 		}
 	}
+	if sc.Mode == "source" && sc.ReadPath != "bloom" && t.Chance(1, 4) {
+		// the row groups of the file as the inputs of a sorted merge: a fault met
+		// while an input is refilled must end the merge with an error, never be
+		// taken for the end of that input
+		sc.ReadPath = "merge"
+		if sc.Plan.NRows < 100 {
+			// inputs longer than the merge's first row buffer, so they are refilled
+			sc.Plan.NRows = 100 + t.Draw(300)
+			sc.Plan.Ops = genOps(t, sc.Plan.NRows)
+		}
+		// several pages per chunk, each fetched by its own ReadAt: the faults land
+		// on refills, not only on the first fill of every input
+		if sc.Plan.W.PageBufferSize == 0 || sc.Plan.W.PageBufferSize > 256 {
+			sc.Plan.W.PageBufferSize = []int{32, 64, 256}[t.Draw(3)]
+		}
+		if sc.F.ReadBufferSize == 0 || sc.F.ReadBufferSize > 512 {
+			sc.F.ReadBufferSize = []int{16, 64, 512}[t.Draw(3)]
+		}
+		if t.Bool() {
+			// exactly two inputs: the two-way merge
+			sc.Plan.Ops = []WOp{{Op: "write", N: sc.Plan.NRows}}
+			sc.Plan.W.MaxRowsPerGroup = int64((sc.Plan.NRows + 1) / 2)
+		} else if sc.Plan.W.MaxRowsPerGroup == 0 || sc.Plan.W.MaxRowsPerGroup > int64(sc.Plan.NRows/2) {
+			sc.Plan.W.MaxRowsPerGroup = int64(max(1, sc.Plan.NRows/(2+t.Draw(3))))
+		}
+	}
 	// asynchronous read mode runs under the E3 scheduler (real goroutine
 	// parallelism would make the faulted call index unrepeatable): the page
 	// goroutines park at every ReadAt and a seeded scheduler picks who proceeds
-	if sc.Mode == "source" && t.Chance(1, 4) {
+	if sc.Mode == "source" && sc.ReadPath != "merge" && t.Chance(1, 4) {
 		sc.F.Async = true
 		sc.F.Optimistic = false
 		sc.SchedSeed = t.Seed()
@@ -188,6 +214,7 @@ func (C14) Run(s any, c *core.Ctx) core.Outcome {
 	r.sh, r.data = sc.Plan.MakeData()
 	r.base = fmt.Sprintf("%s|%s|%d|%d|%s|", sc.Mode, sc.Plan.Shape, sc.Plan.RowSeed, sc.Plan.NRows, sc.Plan.W.Sig())
 	sc.Pools.Install()
+	c.Probe("read-path-" + sc.ReadPath)
 	if len(sc.Plan.W.EncryptKey) > 0 {
 		// nonces and the file identifier come from a seeded stream: runs replay byte for byte
 		old := crand.Reader
